@@ -2756,7 +2756,8 @@ func (p *Parser) evaluateSliceAssignment(ctx context) (Statement, error) {
 	variableDataType := variableValueType.DataType()
 	assignedDataType := value.ValueType().DataType()
 
-	if variableDataType != assignedDataType {
+	// The assigned value must be a single element of the slice's data type.
+	if variableDataType != assignedDataType || value.ValueType().IsSlice() {
 		return nil, p.expectedError(fmt.Sprintf("%s value but got %s", variableDataType, assignedDataType), valueToken)
 	}
 	return SliceAssignment{
